@@ -112,11 +112,17 @@ def drainSched (k : Nat) : List (Nat × Nat) :=
 def expand (rle : List (Nat × Nat)) : List Nat :=
   (rle.map fun tn => List.replicate tn.2 tn.1).flatten
 
+/-- calls thread `i` has to make: `reqs[i]`, none for a thread outside the list -/
+def reqOf (reqs : List Nat) (i : Nat) : Nat :=
+  match reqs[i]? with
+  | some n => n
+  | none => 0
+
 /-- `reqs[t]` calls by thread `t`, explicit schedule, drain; numbers per thread (oldest first) and
 the final counter; `OUT-OF-FUEL` when a thread did not finish (deadlock) -/
 def runPar (p : List Instr) (c : Nat) (reqs : List Nat) (sched : List (Nat × Nat)) :
     Except Err (List (List Nat) × Nat) :=
-  let s0 := initSt c (fun i => match reqs[i]? with | some n => n | none => 0)
+  let s0 := initSt c (reqOf reqs)
   let s := runRle p s0 (sched ++ drainSched reqs.length)
   if (List.range reqs.length).all (fun t => (s.th t).remaining == 0) then
     .ok ((List.range reqs.length).map (fun t => (s.th t).handed.reverse), s.ctr)
